@@ -373,7 +373,11 @@ func c07Judge(rep *vk.Report, x *c07Exec) {
 // "not exceeded": result unchanged, listener silent, execution not cancelled by it.
 func c07Nested(rep *vk.Report, idx int) {
 	r := vk.Rng(rep.Seed, "C07n", idx)
-	kind := vk.Pick(r, "T(Tshort)", "T(Retry(Tshort))", "T(fn-returns-wrapped-ErrExceeded)", "T(Fallback(Tshort))", "T-cancelled-from-outside", "Hedge(Retry(T))")
+	kind := vk.Pick(r, "T(Tshort)", "T(Retry(Tshort))", "T(fn-returns-wrapped-ErrExceeded)", "T(Fallback(Tshort))", "T-cancelled-from-outside", "Hedge(Retry(T))", "T-limit-not-positive")
+	if kind == "T-limit-not-positive" {
+		c07NonPositiveLimit(rep, idx, r)
+		return
+	}
 	if kind == "T-cancelled-from-outside" {
 		c07Outside(rep, idx, r, "C07")
 		return
@@ -507,5 +511,59 @@ func c07HedgeRetry(rep *vk.Report, idx int, r *rand.Rand) {
 		rep.Distinct(fmt.Sprintf("hrt|%d", L))
 	} else {
 		rep.Count("hedge_retry_timeout_scenarios_not_judged_late_timer", 1)
+	}
+}
+
+// c07NonPositiveLimit: "for every time limit" includes one that has already passed (0, or negative: a limit computed from
+// a remaining budget). The two-outcome rule is the same: a function that only returns on cancellation ends in ErrExceeded
+// with its execution cancelled, and the listener is called exactly once per application that ended in ErrExceeded -
+// per attempt when a retry policy encloses the Timeout.
+func c07NonPositiveLimit(rep *vk.Report, idx int, r *rand.Rand) {
+	L := time.Duration(vk.Pick(r, 0, 0, -1, -5000000))
+	var calls, timedOutApps, apps, sawCancel atomic.Int64
+	T := timeout.Builder[int](L).OnTimeoutExceeded(func(failsafe.ExecutionDoneEvent[int]) { calls.Add(1) }).Build()
+	probe := &probePolicy{after: func(_ failsafe.Execution[int], _ any, res *common.PolicyResult[int]) {
+		apps.Add(1)
+		if res.Error != nil && errors.Is(res.Error, timeout.ErrExceeded) {
+			timedOutApps.Add(1)
+		}
+	}}
+	retries := r.IntN(3)
+	pols := []failsafe.Policy[int]{probe, T}
+	if retries > 0 {
+		pols = []failsafe.Policy[int]{retrypolicy.Builder[int]().WithMaxRetries(retries).Build(), probe, T}
+	}
+	blocking := r.IntN(3) != 0
+	fn := func(e failsafe.Execution[int]) (int, error) {
+		if blocking {
+			select {
+			case <-e.Canceled():
+				sawCancel.Add(1)
+			case <-time.After(5 * time.Second):
+			}
+			return 0, errE2
+		}
+		return 1, nil
+	}
+	var err error
+	if r.IntN(3) == 0 {
+		_, err = failsafe.NewExecutor[int](pols...).GetWithExecutionAsync(fn).Get()
+	} else {
+		_, err = failsafe.NewExecutor[int](pols...).GetWithExecution(fn)
+	}
+	time.Sleep(20 * time.Millisecond)
+	rep.Eval()
+	cs := map[string]any{"limit_ns": int64(L), "retries": retries, "blocking": blocking}
+	if blocking && (!errors.Is(err, timeout.ErrExceeded) || timedOutApps.Load() != apps.Load() || sawCancel.Load() != apps.Load()) {
+		rep.Violate(idx, "C07/blocking-function-not-timed-out", fmt.Sprintf("Timeout with limit %v (already passed) around a function that only returns on cancellation, %d retries: result %v, %d of %d applications ended in ErrExceeded, the function observed cancellation %d times", L, retries, err, timedOutApps.Load(), apps.Load(), sawCancel.Load()), cs)
+		return
+	}
+	if calls.Load() != timedOutApps.Load() {
+		rep.Violate(idx, "C07/listener-count", fmt.Sprintf("Timeout with limit %v (already passed), %d retries: %d applications ended in ErrExceeded but OnTimeoutExceeded was called %d times (result %v)", L, retries, timedOutApps.Load(), calls.Load(), err), cs)
+		return
+	}
+	if timedOutApps.Load() > 0 {
+		rep.Count("non_positive_limit_timeouts", 1)
+		rep.Distinct(fmt.Sprintf("nonpos|%d|%d|%v", L, retries, blocking))
 	}
 }
